@@ -63,3 +63,45 @@ func mapLiteralBytes(w *World, pkgPath, varName string) map[string]string {
 	}
 	return out
 }
+
+// sliceLiteralInts evaluates a package-level []T{c0, c1, ...} literal of integer constants.
+func sliceLiteralInts(w *World, pkgPath, varName string) ([]int64, bool) {
+	p := w.Pkg(pkgPath)
+	if p == nil {
+		return nil, false
+	}
+	for _, f := range p.Syntax {
+		for _, d := range f.Decls {
+			gd, ok := d.(*ast.GenDecl)
+			if !ok || gd.Tok != token.VAR {
+				continue
+			}
+			for _, sp := range gd.Specs {
+				vs := sp.(*ast.ValueSpec)
+				for i, n := range vs.Names {
+					if n.Name != varName || i >= len(vs.Values) {
+						continue
+					}
+					cl, ok := ast.Unparen(vs.Values[i]).(*ast.CompositeLit)
+					if !ok {
+						return nil, false
+					}
+					var out []int64
+					for _, el := range cl.Elts {
+						tv, ok := p.TypesInfo.Types[el]
+						if !ok || tv.Value == nil {
+							return nil, false
+						}
+						v, exact := constant.Int64Val(constant.ToInt(tv.Value))
+						if !exact {
+							return nil, false
+						}
+						out = append(out, v)
+					}
+					return out, true
+				}
+			}
+		}
+	}
+	return nil, false
+}
